@@ -63,6 +63,7 @@ class HTTPConnection(ConnectionInterface):
         )
         self._connection: ConnectionInterface | None = None
         self._connect_failed: bool = False
+        self._connecting: bool = False
         self._request_lock = Lock()
         self._socket_options = socket_options
 
@@ -81,7 +82,11 @@ class HTTPConnection(ConnectionInterface):
                         # request re-assigned, rather than connecting again here.
                         raise ConnectionNotAvailable()
 
-                    stream = self._connect(request)
+                    self._connecting = True
+                    try:
+                        stream = self._connect(request)
+                    finally:
+                        self._connecting = False
 
                     ssl_object = stream.get_extra_info("ssl_object")
                     http2_negotiated = (
@@ -103,7 +108,10 @@ class HTTPConnection(ConnectionInterface):
                             keepalive_expiry=self._keepalive_expiry,
                         )
         except BaseException as exc:
-            self._connect_failed = True
+            # A request that gives up while it waits for another request to
+            # establish the connection does not make that attempt a failure.
+            if not self._connecting:
+                self._connect_failed = True
             raise exc
 
         return self._connection.handle_request(request)
